@@ -240,4 +240,23 @@ are lifted by one turn) — so the case analyses above see every possible pair o
 theorem hPrime_range (x y : ℝ) : 0 ≤ getHPrime x y ∧ getHPrime x y < 360 :=
   HPrimeRange.getHPrime_range x y
 
+/-! In the excluded branch (`WrapHigh`) the code's mean hue is at least 360° (half of a sum ≥ 360
+plus 360) and the paper's is below 180° (half of a sum < 720, minus 180): both rotation angles
+`Δθ = 30·exp(−((h̄'−275)/25)²)` are then tiny, which is why the two results differ by less than the
+property's tolerance there. -/
+
+theorem dtheta_small_code_branch (hb : ℝ) (h : 360 ≤ hb) :
+    30 * Real.exp (-(((hb - 275) / 25) ^ 2)) ≤ 30 * Real.exp (-((17 / 5 : ℝ) ^ 2)) := by
+  have h1 : (17 / 5 : ℝ) ≤ (hb - 275) / 25 := by linarith
+  have h2 : (17 / 5 : ℝ) ^ 2 ≤ ((hb - 275) / 25) ^ 2 := by nlinarith
+  have := Real.exp_le_exp.mpr (neg_le_neg h2)
+  linarith
+
+theorem dtheta_small_paper_branch (hb : ℝ) (h : hb < 180) :
+    30 * Real.exp (-(((hb - 275) / 25) ^ 2)) ≤ 30 * Real.exp (-((19 / 5 : ℝ) ^ 2)) := by
+  have h1 : (hb - 275) / 25 ≤ -(19 / 5 : ℝ) := by linarith
+  have h2 : (19 / 5 : ℝ) ^ 2 ≤ ((hb - 275) / 25) ^ 2 := by nlinarith
+  have := Real.exp_le_exp.mpr (neg_le_neg h2)
+  linarith
+
 end Pastel.C11
